@@ -3,17 +3,22 @@ from common import LEAN_TB
 CFG = {'lean_modules': ['ObiVerif.Props.C06'],
  'gen': False,
  'thorough_seeds': 8,
- 'rule': 'cases = (mode mem|disk, chunk count in {1,2,7,100}, workers 1..8, input batch size, --no-singleton, NA value in {"NA","","x1"}, 0..2 category keys, '
+ 'rule': 'cases = (mode mem|disk, chunk count in {1,2,3,7,16,100} or any 1..N+1, workers 1..16, input batch size, --no-singleton, NA value in {"NA","","x1"}, 0..2 category keys, '
          '0..2 merged_ keys, optional obidemerge key, multiset of 0..120 records over 1..6 distinct sequences with duplicates): counts absent/1/2..30, category and '
          'merge attributes present / absent / equal to the NA string / already merged on input (merged_<k> maps of 0..3 entries as StatsOnValues, map[string]int or '
          'map[string]interface{} with int or float64 weights; in half of the multisets consistent with the count, as a previous obiuniq leaves them), integer-valued '
          'attribute n_lib, unrequested merged_ maps; every multiset is run in 3 input orders x configurations. Attribute values contain space , ; : = { } [ ] \' and a '
          'non-ASCII letter but never " nor \\ (escaped quotes in JSON headers are property C02\'s defect, the on-disk mode re-reads FASTA files written by the toolkit). '
          '`dispatch` cases: the chunk files WriterDispatcher/Distribute(HashClassifier) leave at the moment ISequenceChunkOnDisk starts reading them (small cases '
-         'repeated 25 times, the outcome depends on goroutine scheduling). non-trivial = distinct well-formed case with at least 2 records',
+         'repeated 25 times, the outcome depends on goroutine scheduling). `stage` cases: the real ISequenceSubChunk (one worker, one SequenceClassifier or '
+         'AnnotationClassifier object) on a history of 1..6 batches of 0..170 records: sub-batches in push order, then the codes the classifier gives the records of '
+         'the last coded batch and Value(code) of each (state across Reset). Every 20th multiset has > 100 classes, every 20th is almost dereplicated already '
+         '(4N sequences for N records), thorough: > 10000 classes; corpus: arrival orders around a Reset boundary with one category (mem/disk, ns 0/1). non-trivial = distinct well-formed case with at least 2 records',
  'technique': 'Lean 4 theorems on a functional model of IUniqueSequence (hash chunks -> sub-chunks by sequence -> recursive sub-chunks by category -> '
               'BioSequenceSlice.Merge) for every input list, every permutation of it and every chunk function + differential correspondence with the real '
-              'obichunk.IUniqueSequence / obidemerge worker (memory and disk, 1..8 workers) + recount oracle written with Go maps',
+              'obichunk.IUniqueSequence / obidemerge worker (memory and disk, 1..16 workers) and with the real ISequenceSubChunk + classifier objects (stage cases) '
+              '+ recount oracle written with Go maps; loop-level transcription (classifier tables, Reset, coding loop, parametric unstable sort, cut loop, one chain per '
+              'worker) proved to refine the functional model and executed next to it on every case (2 sorts, 2 chunk assignments; any difference = LAYERS-DIFFER)',
  'level_text': 'Proved for all inputs with counts >= 1 (Props/C06.lean): uniq_keys (without --no-singleton the keys of the output are duplicate-free and are exactly '
                'the keys of the input), uniq_count (count = sum over the class of the key), uniq_merged (every requested merged_<k> map exists and gives per value the '
                'summed contribution of the class: the weight in the record\'s own merged_<k> map if it has one, else its count on its value or NA), '
@@ -23,19 +28,32 @@ CFG = {'lean_modules': ['ObiVerif.Props.C06'],
                'weights and annotation set in the other run), demerge_spec / demerge_counts (obidemerge yields one record per entry of merged_<k> with that value and '
                'that count, the weights being the summed contributions), demerge_uniq (for -m k alone, k not a category: dereplicating the demerged output again, with any '
                'chunk function, yields for the key of every first-round output a record with the same merged_<k> weights and count = sum of the weights; hypotheses: '
-               'the map is non-empty with entries >= 1). The model is tied to the code by running both on the same case lines: the canonical result '
+               'the map is non-empty with entries >= 1). Loop level (Model/UniqLoop.lean): classifier_exact (SequenceClassifier/AnnotationClassifier: inside a batch, from any '
+               'state before the Reset, equal values <=> equal codes), hash_same_chunk (HashClassifier: same sequence => same chunk; every theorem holds for every chunk '
+               'function, i.e. nothing else is needed), subChunkL_refines (Reset + coding loop + ANY sort that permutes and orders by code + cut loop yield the classes of '
+               'subChunk up to member order), uniqL_isOutput / uniqL_keys / uniqL_total and uniqL_refines (for every such sort, every assignment of the hash chunks to any '
+               'number of worker chains, every chunk and record arrival order: the outputs of the loop-level pipeline and of the functional model correspond one to one '
+               'up to ObsEq, with and without --no-singleton; so all theorems above hold for the loop-level transcription). The model is tied to the code by running both on the same case lines: the canonical result '
                '(records sorted; key, count, kept annotations, requested merged_ maps) must agree byte for byte, in memory and on disk, for every worker count.',
  'level_note': 'Trusted: Lean kernel; the transcription Model/Uniq.lean. The functional model has no goroutines: the independence from worker count, memory/disk mode and '
                'the scheduling is *proved* only in the form "the result does not depend on the order of the input nor on the chunk function" (uniq_perm), which covers every '
                'intra-class order the unstable sort.Sort of ISequenceSubChunk and the arrival order can produce; that the concurrent pipeline delivers every batch exactly '
-               'once is exercised by the harness (1..8 workers, both modes, watchdog) and by C03, not proved. ISequenceSubChunk (classifier codes, sort, cut) is modelled by '
-               'its result (classes in order of first appearance, members in batch order), not loop by loop. The FASTA/JSON round trip of the on-disk mode is property '
+               'once is exercised by the harness (1..16 workers, both modes, watchdog) and by C03, not proved. ISequenceSubChunk IS now modelled loop by loop '
+               '(Model/UniqLoop.lean: encode/decode/maxcode incl. AnnotationClassifier.Reset leaving maxcode, coding loop, sort as a parameter quantified over every '
+               'permutation ordered by code, cut loop, state threaded over the batches of a stage, one chain per worker) and proved to refine the functional model '
+               '(uniqL_refines); not proved: that the sub-batches leave in order of first appearance (order of classes is not claimed by the property; it is compared '
+               'in the stage cases), and that Go\'s sort.Sort is a ValidSorter (trusted: permutation ordered by Less). Distribute/ISequenceChunk[OnDisk] are still '
+               'modelled by their result (partition by hash code; hypothesis ChunksOK of the loop-level theorems). Observed, outside the property: '
+               'AnnotationClassifier.Value(code) after a Reset panics or names the wrong value (maxcode is not reset while decode is truncated; model and code agree on '
+               'it in the stage cases; obiuniq never calls Value on it); with count=0 records (outside the quantifier) the merged count depends on member order '
+               '(SetCount clamps intermediate sums), so they are not generated. The FASTA/JSON round trip of the on-disk mode is property '
                'C02; here it is covered by correspondence only. The representative (id, unrequested merged_ maps, qualities) and the output order are not claimed.',
- 'trusted_base': LEAN_TB + ['recount oracle of harness/c06.go (Go maps)', 'hash/crc32.ChecksumIEEE = bitwise CRC-32 of Model/Uniq.lean (checked by the dispatch cases)',
+ 'trusted_base': LEAN_TB + ['recount oracle of harness/c06.go (Go maps)', 'sort.Sort returns a permutation of its input ordered by Less (ValidSorter)', 'hash/crc32.ChecksumIEEE = bitwise CRC-32 of Model/Uniq.lean (checked by the dispatch cases)',
                             'os temp directory semantics for the on-disk mode',
                             'github.com/goccy/go-json (its unsynchronised lazy decoder cache is warmed up single-threaded in the harness: concurrent first use by the '
                             'header-parsing workers kills about one fresh process in 10^4 with a nil dereference in internal/decoder/map.go — library defect, not C06)'],
- 'modelled': 'pkg/obiseq/merge.go (StatsOn, StatsPlusOne, StatsOnValues.Merge, BioSequence.Merge, BioSequenceSlice.Merge), pkg/obiseq/class.go (HashClassifier, '
+ 'modelled': 'loop level: pkg/obiseq/class.go SequenceClassifier/AnnotationClassifier (encode, decode, maxcode; Code, Value, Reset, Clone), pkg/obichunk/subchunks.go '
+             'ISequenceSubChunk.ff statement by statement, the per-worker chains of IUniqueSequence.ff; functional level: pkg/obiseq/merge.go (StatsOn, StatsPlusOne, StatsOnValues.Merge, BioSequence.Merge, BioSequenceSlice.Merge), pkg/obiseq/class.go (HashClassifier, '
              'SequenceClassifier, AnnotationClassifier as equality of values), pkg/obichunk (ISequenceChunk[OnDisk] as grouping by hash code, ISequenceSubChunk, the ff '
              'closure of IUniqueSequence incl. the singleton shortcut and --no-singleton), pkg/obiiter/merge.go (IMergeSequenceBatch), pkg/obitools/obidemerge '
              '(MakeDemergeWorker)',
